@@ -124,7 +124,7 @@ def hook_reinforce(model, mon, kind, B_hint=None):
     critic_tap = {}
     bl = model.baseline
     inner = getattr(bl, "baseline", bl)
-    if kind == "critic":
+    if kind in ("critic", "warmup_critic"):
         cr = inner.critic
         o_forward = cr.forward
 
@@ -184,6 +184,28 @@ def hook_reinforce(model, mon, kind, B_hint=None):
                 b = extra.detach()
                 ctx.count("c16_rollout_steps")
                 mon.sig = dict(mon.sig, phase="after_warmup")
+        elif kind == "warmup_critic":
+            # WarmupBaseline around a critic: value = alpha * critic + (1 - alpha) * exponential, loss = alpha * mse, with
+            # alpha_e = min(1, e / n) during epoch e (also AFTER the warm-up: it must stay at 1)
+            alpha = min(1.0, epoch / float(warm_n))
+            v = critic_tap.get("v")
+            if v is None and alpha > 0:
+                ctx.count("c16_critic_tap_missed")
+                return out
+            if alpha < 1:
+                m = Rd.mean()
+                mon.ema = m if mon.ema is None else warm_beta * mon.ema + (1 - warm_beta) * m
+            if alpha == 0:
+                b = mon.ema
+            else:
+                vv = v.squeeze(-1)
+                b = alpha * vv.detach() + ((1 - alpha) * mon.ema if alpha < 1 else 0.0)
+                bl_loss_ref = alpha * F.mse_loss(vv, Rd)
+                ps = ps + params_of(inner.critic)
+            ctx.count("c16_warmup_critic_steps")
+            if epoch > warm_n:
+                ctx.count("c16_steps_after_warmup_end")
+            mon.sig = dict(mon.sig, phase="warmup" if alpha < 1 else "after_warmup")
         elif kind == "critic":
             v = critic_tap.get("v")
             if v is None:
@@ -359,6 +381,15 @@ def case(ctx, case):
         if b == "rollout":
             mon.sig = dict(mon.sig, warmup_epochs_gt_1=bool(case.get("warm", 1) > 1))
         hook_reinforce(model, mon, b)
+        hook_after_backward(model, mon, "REINFORCE loss")
+    elif kind == "reinforce_warmup_critic":
+        from rl4co.models.rl.common.critic import create_critic_from_actor
+        from rl4co.models.rl.reinforce.baselines import CriticBaseline, WarmupBaseline
+
+        pol = big()
+        pol.train()
+        model = M.REINFORCE(env, pol, baseline=WarmupBaseline(CriticBaseline(create_critic_from_actor(pol)), n_epochs=case.get("warm", 2)), **kw)
+        hook_reinforce(model, mon, "warmup_critic")
         hook_after_backward(model, mon, "REINFORCE loss")
     elif kind == "a2c":
         pol = big()
